@@ -23,6 +23,9 @@ JUNK = [bytes([0x00] * 16), bytes([0xFF] * 16), bytes([0x90, 0x66, 0x0F, 0x38, 0
 LINE_BOUND = 3 * 10 ** 6
 
 
+MEM_LIMIT = 6 << 30       # bytes of address space for this check's processes (see vlib/main.py)
+
+
 class Watchdog(Exception):
     pass
 
@@ -307,6 +310,38 @@ def w_asm_mut(run, st_, k, item):
     runner.hyp_drive(run, st_, mutated_lines(rendered), orc, n, run.seed * 1000 + 500 + k, to_case=lambda x: {"asm": x[1], "att": int(x[0])}, shrink=True)
 
 
+def arith_lines():
+    """address / immediate arithmetic the parsers evaluate themselves: number x register in both orders, legal and illegal scales,
+    chains and sums - every line must give a list of encodings (possibly empty) or ValueError, quickly"""
+    out = []
+    regs = ["ecx", "eax", "ebp"]
+    nums = ["0", "1", "2", "3", "4", "5", "8", "9", "16", "0x7fffffff", "0xffffffff", "-1", "-2"]
+    for r in regs[:2]:
+        for n in nums:
+            for t in ("%s*%s" % (n, r), "%s*%s" % (r, n), "%s*%s+1" % (n, r), "%s*%s+ebx" % (r, n), "ebx+%s*%s" % (n, r), "%s*%s*2" % (n, r), "2*%s*%s" % (r, n), "%s*(%s+1)" % (n, r)):
+                out.append("push %s" % t)
+                out.append("mov eax, [%s]" % t)
+                out.append("lea edx, [%s]" % t)
+                out.append("jmp %s" % t)
+    for n in nums:
+        for m in nums[:8]:
+            out.append("mov eax, %s*%s" % (n, m))
+            out.append("mov eax, [%s*%s+%s]" % (n, m, n))
+    return sorted(set(out))
+
+
+def w_asm_arith(run, st_, k, lines):
+    for line in lines:
+        r = check_asm(False, line, st_)
+        st_.nt(("ar", line))
+        for sig, det, case in (r or []):
+            sig = runner.norm_sig(sig)
+            if sig in run.known:
+                st_.known_hits[sig] += 1
+            elif not any(f[0] == sig for f in st_.failures):
+                st_.fail(sig, det + "  [%s]" % line, {"asm": line, "att": 0})
+
+
 def w_asm_struct(run, st_, k, n):
     """structured lines (vlib/asmgen.py): well-formed operands with boundary immediates and displacements, both syntaxes"""
     from vlib import asmgen
@@ -364,6 +399,7 @@ def main(run):
         rend = rendered_lines(sorted(set(x86space.cases("quick", run.seed, thin=23)))[:6000])
     runner.pmap(run, w_asm_mut, [(run.pick(2500, 40000), rend)] * 16)
     runner.pmap(run, w_asm_struct, [run.pick(1500, 30000)] * 16)
+    runner.pmap(run, w_asm_arith, list(runner.chunks(arith_lines(), 64)))
 
 
 def replay(run, case):
